@@ -20,7 +20,7 @@
  "name": "tune_zero_empty_inodes",
  "props": ["C11"],
  "level": "U/iter",
- "tier": "wip",
+ "tier": "quick",
  "tier_after_hooks": "quick",
  "harness": "h_zero_empty_inodes",
  "defines": ["EXT2_CUSTOM_MEMORY_ROUTINES"],
@@ -47,7 +47,7 @@
  "name": "tune_zero_empty_inodes_open",
  "props": ["C11", "C06"],
  "level": "U/iter",
- "tier": "wip",
+ "tier": "quick",
  "harness": "h_zero_empty_inodes",
  "defines": ["EXT2_CUSTOM_MEMORY_ROUTINES", "OPEN_MAY_FAIL=1"],
  "loop_contracts": true,
